@@ -83,7 +83,7 @@ def tag_table(res: CheckResult, prog: Program, schema):
         if tag not in got:
             res.add('TAG-TABLE', fi.short, f'{tag!r} -> {cname}', False, f'documented message element {tag} has no row', fi.file, d.lineno)
             continue
-        ok = got[tag] == cname
+        ok = got[tag] == cname or got[tag].startswith(cname + '.')      # a class, or a classmethod of that class (dispatch table of callables)
         detail = '' if ok else f'{tag} is mapped to {got[tag]}, documentation says {cname}'
         if ok and cname in prog.classes:
             lit = base_tag_literal(None, prog.cls(cname))
@@ -252,9 +252,33 @@ def serializer(res: CheckResult, prog: Program):
 
 
 # ------------------------------------------------------------------- C10
-def _returned_cls_call(fi: FuncInfo):
+def _returned_cls_call(fi: FuncInfo, prog: Program = None, depth=0):
     """The `cls(<readers>, ...)` call returned by a MosCollection.from_* constructor and the expression
-    that produces <readers> (following one level of local assignment)."""
+    that produces <readers> (following one level of local assignment).  `return cls._helper(a, b)` is followed
+    into the helper, whose parameters are replaced by the arguments."""
+    import copy as _copy
+    from .rules_pred import _Subst
+    if prog is not None and depth < 2:
+        for r in ast.walk(fi.node):
+            if isinstance(r, ast.Return) and isinstance(r.value, ast.Call) and isinstance(r.value.func, ast.Attribute) \
+                    and attr_chain(r.value.func.value) in ('cls', 'MosCollection'):
+                helper = prog.cls('MosCollection').find(r.value.func.attr)
+                if helper is None or helper.kind not in ('classmethod', 'staticmethod') or helper is fi:
+                    continue
+                call, src = _returned_cls_call(helper, prog, depth + 1)
+                if call is None:
+                    continue
+                params = [a.arg for a in helper.node.args.args][(1 if helper.kind == 'classmethod' else 0):]
+                mapping = dict(zip(params, r.value.args))
+                mapping.update({k.arg: k.value for k in r.value.keywords if k.arg})
+                sub = lambda x: _Subst(mapping).visit(_copy.deepcopy(x)) if x is not None else None   # noqa: E731
+                call2 = sub(call)
+                ast.copy_location(call2, r.value)
+                for n in ast.walk(call2):
+                    if not hasattr(n, 'lineno'):
+                        n.lineno = r.value.lineno
+                call2.lineno = r.value.lineno
+                return call2, sub(src)
     assigns = {}
     for n in ast.walk(fi.node):
         if isinstance(n, ast.Assign) and len(n.targets) == 1 and isinstance(n.targets[0], ast.Name):
@@ -280,7 +304,7 @@ def sorted_ctors(res: CheckResult, prog: Program):
     pairs = {'from_files': 'from_file', 'from_strings': 'from_string', 'from_s3': 'from_s3'}
     for name, reader_ctor in pairs.items():
         fi = prog.func('MosCollection.' + name)
-        call, src = _returned_cls_call(fi)
+        call, src = _returned_cls_call(fi, prog)
         if call is None:
             res.error(f'SORTED-CTORS: {fi.short} does not return cls(...) (idiom not recognised)')
             continue
@@ -366,6 +390,8 @@ def order_preserved(res: CheckResult, prog: Program):
     for name, fi in ci.methods.items():
         if name.startswith('from_'):
             continue
+        if fi.kind in ('classmethod', 'staticmethod') and not any(isinstance(n, ast.Attribute) and n.attr in ('_mos_readers', 'mos_readers') for n in ast.walk(fi.node)):
+            continue        # constructor helper: runs before the collection exists and never touches a collection's reader list
         bad = calls_in(fi.node, lambda c: attr_chain(c.func) in ('sorted', 'reversed', 'set', 'frozenset', 'random.shuffle')
                        or (isinstance(c.func, ast.Attribute) and c.func.attr in ('sort', 'reverse')))
         stores = [n for n in ast.walk(fi.node) if isinstance(n, ast.Assign) and any(attr_chain(t) == 'self._mos_readers' for t in n.targets)]
@@ -426,37 +452,10 @@ def restore_pair(res: CheckResult, prog: Program):
 
 
 def all_pages(res: CheckResult, prog: Program):
-    res.rules['ALL-PAGES'] = 'get_mos_files visits every page and every key: no break/return inside the page or key loops, the only filter is endswith(suffix), prefix None becomes the empty string and is forwarded'
+    """ALL-PAGES is decided by interpretation (rules_s3.S3Flow); S3-DELEGATES structurally."""
+    from . import rules_s3
+    rules_s3.all_pages(res, prog)
     res.rules['S3-DELEGATES'] = 'get_file_contents returns the object body read() unmodified'
-    fi = prog.func('utils.s3:get_mos_files')
-    loops = [n for n in ast.walk(fi.node) if isinstance(n, ast.For)]
-    if len(loops) < 2:
-        res.error('ALL-PAGES: page/key loops not found in get_mos_files')
-        return
-    page = loops[0]
-    exits = [n for n in ast.walk(page) if isinstance(n, (ast.Break, ast.Return))]
-    res.add('ALL-PAGES', fi.short, 'page loop and key loop have no break/return', not exits,
-            '' if not exits else f'{type(exits[0]).__name__.lower()} at line {exits[0].lineno} ends the listing early: keys of later pages are lost', fi.file, page.lineno)
-    pag = calls_in(page.iter, lambda c: attr_chain(c.func).endswith('.paginate'))
-    ok = bool(pag) and any(k.arg == 'Prefix' and 'prefix' in attr_chain(k.value) for k in pag[0].keywords) \
-        and any(k.arg == 'Bucket' and attr_chain(k.value) == 'bucket_name' for k in pag[0].keywords)
-    res.add('ALL-PAGES', fi.short, 'paginate(Bucket=bucket_name, Prefix=prefix)', ok, '' if ok else 'bucket/prefix are not forwarded to the paginator', fi.file, page.lineno)
-    conds = [n for n in ast.walk(page) if isinstance(n, ast.If)]
-    ok = len(conds) == 1 and attr_chain(conds[0].test) == 'key.endswith(suffix)' and not conds[0].orelse \
-        and any('append' in norm(s) for s in conds[0].body)
-    res.add('ALL-PAGES', fi.short, 'if key.endswith(suffix): files.append(key)', ok,
-            '' if ok else f'keys are filtered by {[norm(c.test) for c in conds]}', fi.file, page.lineno)
-    none_fix = any(isinstance(n, ast.If) and 'prefix is None' in norm(n.test) and "prefix = ''" in norm(n.body[0]) for n in fi.node.body)
-    for n in ast.walk(fi.node):
-        # equivalent spellings: prefix = '' if prefix is None else prefix ; prefix = prefix or '' ; Prefix=prefix or ''
-        if isinstance(n, ast.Assign) and attr_chain(n.targets[0]) == 'prefix' and isinstance(n.value, (ast.IfExp, ast.BoolOp)) and "''" in norm(n.value):
-            none_fix = True
-        if isinstance(n, ast.keyword) and n.arg == 'Prefix' and isinstance(n.value, (ast.IfExp, ast.BoolOp)) and "''" in norm(n.value):
-            none_fix = True
-    res.add('ALL-PAGES', fi.short, "prefix None -> ''", none_fix, '' if none_fix else 'a None prefix is not normalised to the empty string', fi.file, fi.node.lineno)
-    rets = [r for r in ast.walk(fi.node) if isinstance(r, ast.Return) and r.value is not None]
-    ok = len(rets) == 1 and isinstance(rets[0].value, ast.Name)
-    res.add('ALL-PAGES', fi.short, 'returns the accumulated list', ok, '' if ok else 'the accumulated key list is not returned as is', fi.file, fi.node.lineno)
     g = prog.func('utils.s3:get_file_contents')
     rets = [r for r in ast.walk(g.node) if isinstance(r, ast.Return) and r.value is not None]
     ok = len(rets) == 1 and norm(rets[0].value).endswith('.read()')
@@ -467,7 +466,7 @@ def collection_ctor_siblings(res: CheckResult, prog: Program):
     res.rules['COLL-SIBLINGS'] = 'the three MosCollection constructors have the same pipeline (reader per input, drop None, sorted, cls(..., allow_incomplete=...)) and differ only in the reader constructor'
 
     def shape(fi, reader_ctor):
-        call, src = _returned_cls_call(fi)
+        call, src = _returned_cls_call(fi, prog)
         if call is None or src is None:
             return None
         t = norm(src)
@@ -510,7 +509,9 @@ def cli_rules(res: CheckResult, prog: Program, from_file_raises, inspect_ok: boo
                     caught.append('BaseException')
                 else:
                     caught += [e.attr if isinstance(e, ast.Attribute) else getattr(e, 'id', '?') for e in (h.type.elts if isinstance(h.type, ast.Tuple) else [h.type])]
-                if not any(isinstance(s, ast.Continue) for s in h.body):
+                leaves = any(isinstance(x, (ast.Raise, ast.Return, ast.Break)) for s in h.body for x in ast.walk(s))
+                falls_to_next = tries[0] is lp.body[-1] and not tries[0].finalbody        # try/except/else: nothing follows the handler
+                if leaves or not (any(isinstance(s, ast.Continue) for s in h.body) or falls_to_next):
                     ok, detail = False, 'a handler does not continue with the next file'
             missing = [x for x in sorted(need) if not any(hier.isa(x, c) for c in caught)]
             if missing:
@@ -520,8 +521,13 @@ def cli_rules(res: CheckResult, prog: Program, from_file_raises, inspect_ok: boo
         res.add('LOOP-CONTAIN', fi.short, f'try: MosFile.{which}(...) inside the per-file loop', ok, detail, fi.file, lp.lineno)
         order_ok = attr_chain(lp.iter) in ('self._args.files', 'mos_file_keys')
         res.add('LOOP-CONTAIN', fi.short, f'for ... in {attr_chain(lp.iter)} (argument order)', order_ok, '' if order_ok else 'files are not processed in argument order', fi.file, lp.lineno)
-        insp = calls_in(lp, lambda c: attr_chain(c.func).endswith('.inspect'))
-        det = calls_in(lp, lambda c: attr_chain(c.func) == 'self.detect_file')
+        scope = [lp]
+        for c in calls_in(lp, lambda c: attr_chain(c.func).startswith('self.') and attr_chain(c.func) != 'self.detect_file'):
+            helper = prog.cls('CLI').find(attr_chain(c.func).split('.', 1)[1]) if attr_chain(c.func).count('.') == 1 else None
+            if helper is not None:
+                scope.append(helper.node)          # one level of helper method called from the loop
+        insp = [c for n in scope for c in calls_in(n, lambda c: attr_chain(c.func).endswith('.inspect'))]
+        det = [c for n in scope for c in calls_in(n, lambda c: attr_chain(c.func) == 'self.detect_file')]
         res.add('LOOP-CONTAIN', fi.short, 'detect_file then (if inspect) mo.inspect()', bool(det) and bool(insp), '' if det and insp else 'detect/inspect calls missing from the loop', fi.file, lp.lineno)
     if found < 2:
         res.error('LOOP-CONTAIN: the two per-file loops of detect_or_inspect were not found')
